@@ -28,7 +28,7 @@ RULE = ("cases: fitter configurations with <= k deviations from the default; exe
         "(fit, model) row, each compared at every grid distance; non-trivial = distinct (configuration, flags, photometry) with >1 grid distance")
 ASSUMPTIONS = ["finite value alphabets (DESIGN.md section 0)", "theta*dmin not below the smallest aperture (precondition)",
                "sources have >= 1 fitted point with non-zero extinction coefficient"]
-REQUIRED_CLASSES = ['n_distances==1', 'aperture-beyond-table', 'best-at-first', 'best-interior', 'best-at-last', 'av-clipped-some-distances',
+REQUIRED_CLASSES = ['grid-of-hundreds-of-models', 'n_distances==1', 'aperture-beyond-table', 'best-at-first', 'best-interior', 'best-at-last', 'av-clipped-some-distances',
                     'range-multiple-of-step', 'range-exact-multiple-exact-arithmetic', 'float32-path', 'limit-violated', 'non-monotone-growth', 'mixed-theta', 'request-on-smallest-aperture', 'distance-range-in-other-unit', 'apertures-in-other-angular-unit', 'aperture-tables-differ-between-bands', 'aperture-table-stored-decreasing', 'source-reflagged-between-fits']
 TIMEOUT = {'quick': 300, 'thorough': 1800}
 
@@ -43,9 +43,11 @@ AXES = {
     'dunit': ['kpc', 'pc', 'cm'],
     'tunit': ['arcsec', 'arcmin', 'rad'],
     'aptab': ['same', 'per-band', 'stored-decreasing'],
+    'n_models': [5, 300],          # scale: row indices beyond 127 / 255, names filling the 30-character column; eight flag vectors only
 }
 VARIANTS = [('v1', False, False), ('v2', True, False), ('v2', False, False), ('v2', True, True)]
 BANDS = ['B1', 'B3', 'B5']
+BIG_FLAGS = [(1, 1, 1), (1, 4, 3), (4, 4, 4), (1, 0, 1), (9, 1, 1), (1, 2, 1), (3, 1, 2), (1, 1, 0)]
 
 
 def setup(tier, seed):
@@ -95,11 +97,14 @@ def run_case(ctx, case, rec, d):
         rec.cls('distance-range-in-other-unit')
     if case.get('tunit', 'arcsec') != 'arcsec':
         rec.cls('apertures-in-other-angular-unit')
-    ap, tables = fc.grid3d(seed * 10 + 1, n_models=5, n_ap=case['n_ap'], bands=BANDS, monotone=(case['grid'] != 'arbitrary'),
+    ap, tables = fc.grid3d(seed * 10 + 1, n_models=case.get('n_models', 5), n_ap=case['n_ap'], bands=BANDS, monotone=(case['grid'] != 'arbitrary'),
                            irregular=(case['grid'] == 'irregular'))
     if case['grid'] == 'arbitrary':
         rec.cls('non-monotone-growth')
-    names = fc.names_for(5)
+    n_models = case.get('n_models', 5)
+    names = fc.names_for(n_models)
+    if n_models > 256:
+        rec.cls('grid-of-hundreds-of-models')
     step = case['step']
     dmin, dmax = _range(case['range'], step, ap, theta)
     avlo, avhi = case['avr']
@@ -158,11 +163,11 @@ def run_case(ctx, case, rec, d):
         rec.cls('aperture-beyond-table')
     logd = np.log10(grid)
     first = True
-    for fv in fc.flag_vectors(3, need_fitted=1):
+    for fv in (BIG_FLAGS if n_models > 5 else fc.flag_vectors(3, need_fitted=1)):
         if not any(v in (1, 4) and k[j] != 0 for j, v in enumerate(fv)):
             continue
         for ps in range(ctx['psets']):
-            planted = (ps + sum(fv)) % 5
+            planted = (ps + sum(fv)) % 5 if n_models == 5 else (ps * 97 + sum(fv) * 31) % n_models
             jd = [0, len(grid) // 2, len(grid) - 1][(ps + fv[0]) % 3]
             a0 = [1.2, 0.0, 6.0][ps % 3]
             base = 10 ** (logm3[planted, jd, :] + a0 * k)
